@@ -241,6 +241,24 @@ class Driver:
                 if got != want:
                     how = "explicit" if fmt else "inferred"
                     bad.append((f"dispatch:{how}", f"{meth}({key!r}): expected {want}, reached {got}"))
+                if fmt is not None:
+                    # an explicit format name decides alone: a path WITHOUT extension (nothing to infer from) reaches the same plugin
+                    noext = os.path.join(self.scratch, "in_noext" if meth.startswith("load") else "absent_noext")
+                    if meth.startswith("load") and not os.path.exists(noext):
+                        open(noext, "w").close()
+                    del self.log[:]
+                    try:
+                        func(*((noext,) if meth.startswith("load") else (args[0], noext)), format_name=fmt)
+                        got = self.log[0][:2] if self.log else "nothing-called"
+                        if self.log and self.log[0][2] != meth:
+                            got = f"wrong method {self.log[0][2]}"
+                    except ValueError:
+                        got = "ValueError"
+                    except Exception as e:  # noqa
+                        got = f"{type(e).__name__}"
+                    self.rec.count("dispatch_checked")
+                    if got != want:
+                        bad.append(("dispatch:explicit:no-extension", f"{meth}(<path without extension>, format_name={key!r}): expected {want}, reached {got}"))
                 if meth == "load_result" and fmt is not None:
                     # the same with an EXISTING DIRECTORY as path (results are folders): an explicit format name still decides
                     d = os.path.join(self.scratch, "result_folder")
